@@ -87,6 +87,11 @@ CHECKS = [
  ('C17', 'other', 'static symbolic bounded-write analysis with callee write summaries and interval guards',
   'Partial: writes of the query composer bounded by the checked estimate, estimate >= escape bound, INT_MAX guards, item count, no silent UriBool/enum conversion of the break option at any call. Not '
   'decided: compose/dissect round trip.'),
+ ('C18', 'other', 'static symbolic bounded-write analysis with an inductive potential invariant; decision tables read off all paths',
+  'Partial: every store of the name-to-URI direction ends within the documented 7 + 3n + 1 / 8 + 3n + 1 characters (inductive invariant '
+  'over the conversion loop, escape routine through its write summary); prefix and skip tables equal the documented forms; the reverse '
+  'direction fits len + 1 - 5 / len + 1 for the forms the property names; escape / unescape option pairing; entry constants. Not decided: '
+  'the round trip as a whole, validity of the unescaped first segment of a Windows drive name.'),
  ('C19', 'proof', 'static sibling isomorphism, dimension analysis, conversion lint',
   'Structural statement: every A/W function pair is the same tree modulo the character type; every size is in characters or '
   'converted by sizeof(URI_CHAR) (no bare constant added to a byte count); no signedness-sensitive use of a character value.'),
@@ -96,8 +101,6 @@ CHECKS = [
 ]
 
 NA = [
- ('C18', 'round trip between two string loops plus an amortised size formula; outside what the static domains here can express '
-         '(DESIGN.md section 4 C18)'),
 ]
 
 
